@@ -5,8 +5,13 @@
 (* and an implementation-shaped model of their descr-list mechanism.               *)
 (*                                                                                *)
 (* An array is  [shape : Seq(Nat), fields : Seq(Field)]                           *)
-(* a field      [name, kind : STRING, sub : Seq(Nat), order : STRING, tok : STRING]*)
-(*   kind  "i4" "f8" "S3" "U2" ... (base type and item size), sub the sub-array     *)
+(* a field      [name, kind : STRING, sub : Seq(Nat), order : STRING,              *)
+(*               inner : Seq(Field), tok : STRING]                                 *)
+(*   kind  "i4" "f8" "S3" "U2" "b1" "c8" ... (base type and item size) or "struct": *)
+(*   a field whose type is itself a structured dtype; `inner` is then its own field *)
+(*   sequence (names - possibly equal to outer names -, kinds, sub-arrays, byte     *)
+(*   orders, nested again; the tok of an inner field is "-": a nested field is ONE  *)
+(*   field with one data token) and <<>> otherwise.  sub the sub-array              *)
 (*   shape, order one of "<" ">" "|", tok the DATA TOKEN of the field: an opaque    *)
 (*   name for its content ("A.a" = what field a of the initial array A held,        *)
 (*   "zero" = zero filled, "d1" = filled with default value d1).  The harness maps  *)
@@ -24,7 +29,7 @@
 (*   others combine: the list of arrays; copy: <<source, destination>>;            *)
 (*          the current array is the entry with id = "cur"                         *)
 (* An observation is                                                               *)
-(*   [err : "none" | "rejected", arr : Array, views : Seq([shape, kind, order, tok]),*)
+(*   [err : "none" | "rejected", arr : Array, views : Seq([shape, kind, order, inner, tok]),*)
 (*    fresh : BOOLEAN (result shares no memory with an input),                     *)
 (*    frame : BOOLEAN (inputs that must not change are bit-identical afterwards)]  *)
 EXTENDS VU
@@ -102,7 +107,7 @@ FOCopyByName(a, names, vals) ==
                   ELSE a.fields[k]]))
 
 \* "splitting into per-field views": one view per requested field, in the requested order
-FOView(a, f) == [shape |-> a.shape \o f.sub, kind |-> f.kind, order |-> f.order, tok |-> f.tok]
+FOView(a, f) == [shape |-> a.shape \o f.sub, kind |-> f.kind, order |-> f.order, inner |-> f.inner, tok |-> f.tok]
 FOSplit(a, names, form) ==
     LET want == IF form = "none" THEN FONames(a) ELSE names
     IN IF FOMissing(a, want) THEN FORej
@@ -127,6 +132,10 @@ FONextArr(pre, op) ==
 \* ---------------------------------------------------------------------------------
 FOHasDup(s) == \E i, j \in DOMAIN s : i < j /\ s[i] = s[j]
 
+\* a field type up to byte order (recursively through nested structured fields) and data
+RECURSIVE FOEraseOrder(_)
+FOEraseOrder(f) == [f EXCEPT !.order = "-", !.tok = "-", !.inner = [k \in DOMAIN f.inner |-> FOEraseOrder(f.inner[k])]]
+
 \* nothing is demanded at all
 FOUnconstrained(pre, op) ==
     \/ op.op = "combine" /\ LET l == FOOthers(pre, op)            \* same size, different shapes
@@ -135,7 +144,7 @@ FOUnconstrained(pre, op) ==
     \/ op.op = "copy" /\ LET l == FOOthers(pre, op)               \* common field of a different type / different shapes
                          IN \/ (l[1].shape # l[2].shape /\ FOSize(l[1].shape) = FOSize(l[2].shape))
                             \/ \E n \in FONameSet(l[1]) \cap FONameSet(l[2]) :
-                                  FOField(l[1], n).kind # FOField(l[2], n).kind \/ FOField(l[1], n).sub # FOField(l[2], n).sub
+                                  FOEraseOrder(FOField(l[1], n)) # FOEraseOrder(FOField(l[2], n))
     \/ op.op \in {"extract", "remove", "reorder", "copy_by_name", "split"} /\ FOHasDup(op.names)
     \/ op.op = "add" /\ FOHasDup([k \in DOMAIN op.add |-> op.add[k].name])
 
@@ -163,6 +172,17 @@ FOGating(op) ==
       [] op.op = "copy_by_name" -> op.form \in {"list", "scalar"}
       [] op.op = "split"        -> op.form \in {"list", "none"}
 
+\* field types the quantifier of the statement does not name ("numeric, bytes and unicode fields", alone or
+\* nested): dates, time spans and python objects are exercised and judged, but do not gate
+FOOutsideKinds == {"M8[s]", "M8[ns]", "m8[ms]", "m8[us]", "O"}
+RECURSIVE FOFieldOutside(_)
+FOFieldOutside(f) == f.kind \in FOOutsideKinds \/ \E k \in DOMAIN f.inner : FOFieldOutside(f.inner[k])
+FOArrOutside(a) == \E k \in DOMAIN a.fields : FOFieldOutside(a.fields[k])
+FOInsideTypes(pre, op) ==
+    /\ ~FOArrOutside(pre)
+    /\ \A k \in DOMAIN op.others : ~FOArrOutside(op.others[k])
+    /\ \A k \in DOMAIN op.add : ~FOFieldOutside(op.add[k])
+
 \* ---------------------------------------------------------------------------------
 \* Acceptance of an observation, clause by clause
 \* ---------------------------------------------------------------------------------
@@ -171,6 +191,7 @@ FOTypeClass(f) == f.order \o f.kind \o (IF f.sub = <<>> THEN "" ELSE "[sub]")
 FOFieldFailing(ef, of) ==
     (IF of.kind = ef.kind THEN {} ELSE {"field_type:" \o FOTypeClass(ef)}) \cup
     (IF of.sub = ef.sub THEN {} ELSE {"field_subshape:" \o FOTypeClass(ef)}) \cup
+    (IF of.inner = ef.inner THEN {} ELSE {"field_substructure:" \o FOTypeClass(ef)}) \cup
     (IF of.order = ef.order THEN {} ELSE {"field_byteorder:" \o FOTypeClass(ef)}) \cup
     (IF of.tok = ef.tok THEN {} ELSE {"field_data:" \o FOTypeClass(ef)})
 
@@ -185,7 +206,7 @@ FOArrFailing(ea, oa) ==
 FOViewsFailing(ev, ov) ==
     IF Len(ov) # Len(ev) THEN {"split_count"}
     ELSE UNION {(IF ov[k].shape = ev[k].shape THEN {} ELSE {"split_shape"}) \cup
-                (IF ov[k].kind = ev[k].kind /\ ov[k].order = ev[k].order THEN {} ELSE {"split_type"}) \cup
+                (IF ov[k].kind = ev[k].kind /\ ov[k].order = ev[k].order /\ ov[k].inner = ev[k].inner THEN {} ELSE {"split_type"}) \cup
                 (IF ov[k].tok = ev[k].tok THEN {} ELSE {"split_data"}) : k \in DOMAIN ev}
 
 FOResultFailing(pre, op, e, o) ==
